@@ -76,6 +76,13 @@ CHECKS = {
             "documents and the corpus (three universal clauses), LF and CRLF. Held on the documents observed.",
             "Trusted: mf/reader.py; the renderer's record of which keyword / opener each comment was attached to.",
             "DESIGN.md 2 C14"),
+    "C15": ("relation open/load/loads(include tree) == loads(independently flattened text) + sys.addaudithook observation of the "
+            "files actually opened (path resolution) + outcome contract at the depth boundary, for cycles and missing files",
+            "Random include trees (fan-out <= 4, depth 0..7, sub-directories, absolute/relative, quoted/unquoted, comments, CRLF) "
+            "cut from generated documents, loaded through the three front ends from different working directories; "
+            "expand_includes=False round trip. Held on the trees observed.",
+            "Trusted: flatten() over the generator's own tree; completeness of 'open' audit events.",
+            "DESIGN.md 2 C15"),
     "C16": ("icontract postcondition on the real PrettyPrinter.pprint (layout part): per-line indentation, END placement, END "
             "comments, line-break characters and alignment column computed from an independent reading of the output",
             "Vocabulary, generated, loaded (with comments), edited and corpus dictionaries x the formatter option sets of C06 "
